@@ -295,6 +295,9 @@ func wantAt(t trace, j int) (string, bool) {
 
 func classify(faulty bool, want, got string, j int, t trace) string {
 	if strings.HasPrefix(got, "panic") {
+		if faulty {
+			return "c08-panic" // a panic on a fault path belongs to C08 (the binary also runs with only_kinds c08-)
+		}
 		return "c07-panic"
 	}
 	if !faulty {
@@ -339,6 +342,11 @@ func monitorNexts(c caseInfo, outs []string, st *implState) []fail {
 	srcKind, srcArg := splitTok(toks[0])
 	lazyOK := !faulty && srcKind == "src" && len(scriptsOf(toks)) == 1
 	items := scriptItems(parseScript(srcArg))
+	// One divergence is reported once per clause. Clauses of different properties do not mask each
+	// other: the alignment-independent C08 clauses (a live call answering the context error, an error
+	// no source produced) and the C07 laziness clause keep being judged after a failure of another
+	// clause; only the value clause stops once the answers are out of step with the reference.
+	repCtx, repWrong, repLazy := false, false, false
 	for i, o := range c.ops {
 		f := strings.Fields(o)
 		res, logs := splitOut(outs[i])
@@ -354,23 +362,23 @@ func monitorNexts(c caseInfo, outs []string, st *implState) []fail {
 			return fails // Next after Close is the consumer's fault; nothing to judge
 		}
 		calls++
-		if stop {
-			continue
-		}
 		live := f[0] == "inextit" || f[1] != "0"
 		if res == "err ctx" {
-			if live {
+			if live && !repCtx {
+				repCtx = true
 				fails = append(fails, fail{"c08-unexpected-error-" + stageNames(toks), params, fmt.Sprintf("call %d with a live context answered the context error", i)})
-				stop = true
 			}
 			continue // costs nothing: erased
 		}
 		if strings.HasPrefix(res, "err t") {
-			if !trans[strings.TrimPrefix(res, "err ")] {
+			if !trans[strings.TrimPrefix(res, "err ")] && !repWrong {
+				repWrong = true
 				fails = append(fails, fail{"c08-wrong-error-" + stageNames(toks), params, fmt.Sprintf("call %d answered %q which no source produced", i, res)})
-				stop = true
 			}
 			continue // a transient source failure: erased
+		}
+		if stop {
+			continue
 		}
 		want, judged := wantAt(t, j)
 		if judged && res != want {
@@ -385,12 +393,12 @@ func monitorNexts(c caseInfo, outs []string, st *implState) []fail {
 			continue
 		}
 		j++
-		if lazyOK {
+		if lazyOK && !repLazy {
 			nd, okn := need(items, toks[1:], j)
 			if got := pulledOf(logs); okn && got > nd {
+				repLazy = true
 				fails = append(fails, fail{"c07-lazy-" + lib + "-" + stageNames(toks), params,
 					fmt.Sprintf("%s: after %d answers %d source items were pulled, %d determine those answers", strings.Join(toks, " "), j, got, nd)})
-				stop = true
 			}
 		}
 	}
@@ -496,7 +504,9 @@ func monitorReducer(c caseInfo, out string, st *implState) []fail {
 	var fails []fail
 	if res != want {
 		k := "c07-reducer-" + name
-		if strings.HasPrefix(res, "panic") {
+		if strings.HasPrefix(res, "panic") && faulty {
+			k = "c08-panic-" + name
+		} else if strings.HasPrefix(res, "panic") {
 			k = "c07-panic-" + name
 		} else if faulty {
 			k = "c08-reducer-" + name
